@@ -297,11 +297,17 @@ Definition Uniq (l : list pc) : Prop :=
 Definition res_ok (r : nat * res) : Prop :=
   match snd r with RPop v (Some g) => v = Some g | _ => True end.
 
+Definition is_owned (f : phase) : bool := match f with PushOwned _ | PopOwned _ => true | _ => false end.
+(* every slot that is in an owned phase has an owning thread *)
+Definition Owned (s : shared) (l : list pc) : Prop :=
+  forall i f, nth_error (ph s) i = Some f -> is_owned f = true -> exists j pj, nth_error l j = Some pj /\ owner_phase pj = Some f.
+
 Record Inv (k : Z) (c : config) : Prop := {
   inv_g : G k (sh c);
   inv_u : Uniq (ths c);
   inv_t : Forall (tassert (sh c)) (ths c);
-  inv_h : Forall res_ok (hist c)
+  inv_h : Forall res_ok (hist c);
+  inv_o : Owned (sh c) (ths c)
 }.
 
 (* ------------------------------------------------------------------------------------------- *)
@@ -421,17 +427,29 @@ Proof.
   intros H Hr. destruct r; cbn [push_hist]; auto. apply Forall_app. split; auto.
 Qed.
 
+Lemma Owned_keep s l i p p' :
+  Owned s l -> nth_error l i = Some p -> (owner_phase p' = owner_phase p \/ owner_phase p = None) -> Owned s (upd l i p').
+Proof.
+  intros HO Hi Hk a f Hf Ho. destruct (HO a f Hf Ho) as (j & pj & Hj & Hoj).
+  destruct (Nat.eq_dec j i) as [->|Hne].
+  - rewrite Hi in Hj. inversion Hj; subst pj. exists i, p'. split.
+    + apply nth_error_upd_eq. apply nth_error_Some. congruence.
+    + destruct Hk as [E|E]; congruence.
+  - exists j, pj. split; auto. rewrite nth_error_upd_ne; auto.
+Qed.
+
 (* a thread that owns a slot rewrites it (value write, publish, clear, release) *)
 Lemma owner_write k c i p p' f_old x' f' r :
   Inv k c -> nth_error (ths c) i = Some p -> owner_phase p = Some f_old ->
   phase_at (sh c) (ticket f_old) = Some f_old ->
   slot_ok (sh c) (sidx (sh c) (ticket f_old)) x' f' ->
   (owner_phase p' = None \/ owner_phase p' = owner_phase p) ->
+  (is_owned f' = true -> owner_phase p' = Some f') ->
   tassert (set_slot (sh c) (sidx (sh c) (ticket f_old)) x' f') p' ->
   (forall x, r = Some x -> res_ok (i, x)) ->
   Inv k {| sh := set_slot (sh c) (sidx (sh c) (ticket f_old)) x' f'; ths := upd (ths c) i p'; hist := push_hist (hist c) i r |}.
 Proof.
-  intros [HG HU HT HH] Hi Ho Hph Hok Ho' Hp' Hr.
+  intros [HG HU HT HH HO] Hi Ho Hph Hok Ho' Hown' Hp' Hr.
   constructor; cbn [sh ths hist].
   - apply G_set_slot; auto. eapply sidx_lt; eauto.
   - eapply Uniq_upd_same; eauto.
@@ -440,6 +458,15 @@ Proof.
     apply tassert_set_slot; auto.
     eapply (others_elsewhere (sh c) (ths c) i j p pj f_old); eauto.
   - apply hist_ok; auto.
+  - intros a f Hf Hof. cbn [set_slot ph] in Hf. apply nth_error_upd_cases in Hf. destruct Hf as [[-> ->]|[Hne Hf]].
+    + exists i, p'. split; [apply nth_error_upd_eq; apply nth_error_Some; congruence|auto].
+    + destruct (HO a f Hf Hof) as (j & pj & Hj & Hoj). destruct (Nat.eq_dec j i) as [->|Hji].
+      * exfalso. rewrite Hi in Hj. inversion Hj; subst pj. rewrite Ho in Hoj. inversion Hoj; subst f_old.
+        destruct (slot_exists k (sh c) (ticket f) HG) as [y Hy].
+        assert (Hlen : (a < length (slots (sh c)))%nat) by (rewrite <- (g_lph _ _ HG); apply nth_error_Some; congruence).
+        apply nth_error_Some in Hlen. destruct (nth_error (slots (sh c)) a) as [xa|] eqn:Exa; [|congruence].
+        pose proof (g_slots _ _ HG _ _ _ Exa Hf) as (Hia & _). congruence.
+      * exists j, pj. split; auto. rewrite nth_error_upd_ne; auto.
 Qed.
 
 (* ------------------------------------------------------------------------------------------- *)
@@ -447,14 +474,15 @@ Qed.
 (* ------------------------------------------------------------------------------------------- *)
 Lemma local_step k c i p p' r :
   Inv k c -> nth_error (ths c) i = Some p ->
-  (owner_phase p' = None \/ owner_phase p' = owner_phase p) ->
+  owner_phase p' = owner_phase p ->
   tassert (sh c) p' -> (forall x, r = Some x -> res_ok (i, x)) ->
   Inv k {| sh := sh c; ths := upd (ths c) i p'; hist := push_hist (hist c) i r |}.
 Proof.
-  intros [HG HU HT HH] Hi Ho Hp' Hr. constructor; cbn [sh ths hist]; auto.
+  intros [HG HU HT HH HO] Hi Ho Hp' Hr. constructor; cbn [sh ths hist]; auto.
   - eapply Uniq_upd_same; eauto.
   - apply Forall_upd_others; auto. intros j pj Hj Hpj. rewrite Forall_forall in HT. apply HT. eapply nth_error_In; eauto.
   - apply hist_ok; auto.
+  - eapply Owned_keep; eauto.
 Qed.
 
 Lemma Uniq_upd_new l i p' f_new :
@@ -672,7 +700,7 @@ Lemma case_loads k c i p o : Inv k c -> nth_error (ths c) i = Some p ->
 Proof.
   intros HI Hi Hp. pose proof (get_assert c k i p HI Hi) as Ha. pose proof (inv_g _ _ HI) as HG.
   destruct p; try contradiction; cbn [tstep].
-  - destruct o; eexists _, _, _; (split; [reflexivity|]); apply local_step with (p := Idle); auto; try exact I; discriminate.
+  - destruct o; eexists _, _, _; (split; [reflexivity|]); apply local_step with (p := Idle); auto; try exact I; try reflexivity; discriminate.
   - eexists _, _, _. split; [reflexivity|]. eapply local_step; eauto; cbn [tassert owner_phase]; auto; try discriminate. split; auto; lia.
   - eexists _, _, _. split; [reflexivity|]. eapply local_step; eauto; cbn [tassert owner_phase]; auto; try discriminate. split; auto; lia.
   - cbn [tassert] in Ha. destruct Ha as (Hpos & Hseq & Hph & sq & Hs). subst pos.
@@ -716,7 +744,7 @@ Proof.
     destruct (phase_facts k _ _ _ HG Hph) as ([xv xs] & Hx & (Hi0 & Hsq & Hr)). cbn [ticket] in Hi0.
     unfold slot_at in Hx. rewrite (sidx_u32 k _ _ HG), Hx.
     eexists _, _, _. split; [reflexivity|].
-    unfold next. eapply (owner_write k c i _ _ (PushOwned T0)); eauto.
+    unfold next. eapply (owner_write k c i _ (PuPublish v (u32 T0) seq T0) (PushOwned T0) (Some v, xs) (PushOwned T0) None); eauto.
     all: try discriminate.
     + unfold slot_ok; cbn [ticket seq_of snd]. auto.
     + cbn [tassert]. unfold phase_at, slot_at; cbn [set_slot ph slots hd q cap ticket]. unfold sidx; cbn [set_slot cap]. fold (sidx (sh c) T0).
@@ -728,7 +756,8 @@ Proof.
     destruct (phase_facts k _ _ _ HG Hph) as (x & Hx & (Hi0 & Hsq & Hr)). cbn [ticket] in Hi0.
     rewrite Hs in Hx. inversion Hx; subst x. unfold slot_at in Hs. rewrite (sidx_u32 k _ _ HG), Hs.
     eexists _, _, _. split; [reflexivity|].
-    unfold next. eapply (owner_write k c i _ _ (PushOwned T0)); eauto.
+    unfold next. eapply (owner_write k c i _ Idle (PushOwned T0) (Some v, u32 (u32 T0 + 1)) (Published T0) (Some (RPush true))); eauto.
+    all: try discriminate. all: try exact I.
     + unfold slot_ok; cbn [ticket seq_of snd fst]. repeat split; auto; try lia. apply u32_succ. congruence.
     + intros x Hx'. inversion Hx'; subst. exact I.
   - (* PoClear *)
@@ -736,7 +765,7 @@ Proof.
     destruct (phase_facts k _ _ _ HG Hph) as ([xv xs] & Hx & (Hi0 & Hsq & Hr)). cbn [ticket] in Hi0.
     unfold slot_at in Hx. rewrite (sidx_u32 k _ _ HG), Hx.
     eexists _, _, _. split; [reflexivity|].
-    unfold next. eapply (owner_write k c i _ _ (PopOwned H0)); eauto.
+    unfold next. eapply (owner_write k c i _ (PoRelease (u32 H0) seq H0 gv val) (PopOwned H0) (None, xs) (PopOwned H0) None); eauto.
     all: try discriminate.
     + unfold slot_ok; cbn [ticket seq_of snd]. auto.
     + cbn [tassert]. unfold phase_at; cbn [set_slot ph slots hd q cap ticket]. unfold sidx; cbn [set_slot cap]. fold (sidx (sh c) H0).
@@ -747,7 +776,8 @@ Proof.
     destruct (phase_facts k _ _ _ HG Hph) as ([xv xs] & Hx & (Hi0 & Hsq & Hr)). cbn [ticket] in Hi0.
     unfold slot_at in Hx. rewrite (sidx_u32 k _ _ HG), Hx.
     eexists _, _, _. split; [reflexivity|].
-    unfold next. eapply (owner_write k c i _ _ (PopOwned H0)); eauto.
+    unfold next. eapply (owner_write k c i _ Idle (PopOwned H0) (xv, u32 (u32 (H0 + 1) + (cap (sh c) - 1))) (Free (H0 + cap (sh c))) (Some (RPop val (Some gv)))); eauto.
+    all: try discriminate. all: try exact I.
     + unfold slot_ok; cbn [ticket seq_of snd]. repeat split.
       * apply (sidx_shift k _ _ HG).
       * rewrite u32_add_l. f_equal. lia.
@@ -760,6 +790,17 @@ Lemma owner_pins s pj f : tassert s pj -> owner_phase pj = Some f -> phase_at s 
 Proof.
   intros Ht Ho. apply (pinned_holds s pj f Ht).
   destruct pj; cbn [owner_phase pinned] in *; try discriminate; auto.
+Qed.
+
+Lemma Owned_new_owner (s s' : shared) l i p p' i0 f' :
+  Owned s l -> nth_error l i = Some p -> owner_phase p = None -> owner_phase p' = Some f' ->
+  ph s' = upd (ph s) i0 f' -> Owned s' (upd l i p').
+Proof.
+  intros HO Hi Hnone Hown Hph a f Hf Hof. rewrite Hph in Hf. apply nth_error_upd_cases in Hf. destruct Hf as [[-> ->]|[Hne Hf]].
+  - exists i, p'. split; [apply nth_error_upd_eq; apply nth_error_Some; congruence|exact Hown].
+  - destruct (HO a f Hf Hof) as (j & pj & Hj & Hoj). destruct (Nat.eq_dec j i) as [->|Hji].
+    + rewrite Hi in Hj. inversion Hj; subst pj. congruence.
+    + exists j, pj. split; auto. rewrite nth_error_upd_ne; auto.
 Qed.
 
 Lemma case_cas k c i p o : Inv k c -> nth_error (ths c) i = Some p -> fresh_ok c i ->
@@ -777,7 +818,7 @@ Proof.
     + apply u32_inj_near in E; [|lia]. subst T0. specialize (Himp eq_refl).
       rewrite (sidx_u32 k _ _ HG).
       eexists _, _, _. split; [reflexivity|]. fold (after_push_cas (sh c) v). unfold next.
-      destruct HI as [_ HU HT HH]. constructor; cbn [sh ths hist push_hist]; auto.
+      destruct HI as [_ HU HT HH HO]. constructor; cbn [sh ths hist push_hist]; auto.
       * apply G_push_cas; auto.
       * eapply Uniq_upd_new; eauto; [reflexivity|]. intros j pj Hj Hpj Ho.
         assert (Htj : tassert (sh c) pj) by (rewrite Forall_forall in HT; apply HT; eapply nth_error_In; eauto).
@@ -792,6 +833,7 @@ Proof.
            repeat split; auto.
            ++ rewrite nth_error_upd_eq; auto. rewrite (g_lph _ _ HG); auto.
            ++ rewrite app_nth2 by lia. replace (Z.to_nat (tl (sh c) - hd (sh c)) - length (q (sh c)))%nat with 0%nat by lia. reflexivity.
+      * eapply (Owned_new_owner (sh c)); eauto; reflexivity.
     + eexists _, _, _. split; [reflexivity|]. eapply local_step; eauto; cbn [tassert owner_phase]; auto.
       intros x Hx'. inversion Hx'; subst. exact I.
   - (* PoCas *)
@@ -801,7 +843,7 @@ Proof.
       destruct (phase_facts k _ _ _ HG Himp) as ([xv xs] & Hx & (_ & Hsq & (Hr & Hv))). cbn [fst snd seq_of] in *.
       rewrite (sidx_u32 k _ _ HG).
       eexists _, _, _. split; [reflexivity|]. fold (after_pop_cas (sh c)). unfold next.
-      destruct HI as [_ HU HT HH]. constructor; cbn [sh ths hist push_hist]; auto.
+      destruct HI as [_ HU HT HH HO]. constructor; cbn [sh ths hist push_hist]; auto.
       * apply G_pop_cas; auto.
       * eapply Uniq_upd_new; eauto; [reflexivity|]. intros j pj Hj Hpj Ho.
         assert (Htj : tassert (sh c) pj) by (rewrite Forall_forall in HT; apply HT; eapply nth_error_In; eauto).
@@ -816,6 +858,7 @@ Proof.
            ++ rewrite Hseq. apply u32_succ.
            ++ rewrite nth_error_upd_eq; auto. rewrite (g_lph _ _ HG); auto.
            ++ exists xs. unfold slot_at in Hx. rewrite Hx. f_equal. f_equal. rewrite Hv. f_equal. f_equal. lia.
+      * eapply (Owned_new_owner (sh c)); eauto; reflexivity.
     + eexists _, _, _. split; [reflexivity|]. eapply local_step; eauto; cbn [tassert owner_phase]; auto.
       intros x Hx'. inversion Hx'; subst. exact I.
 Qed.
@@ -880,6 +923,11 @@ Proof.
   - intros a b p1 p2 f _ Ha _ Ho. apply nth_error_In, repeat_spec in Ha. subst. discriminate.
   - apply Forall_forall. intros p Hp. apply repeat_spec in Hp. subst. exact I.
   - constructor.
+  - intros a f Hf Hof. cbn [init sh ph] in Hf.
+    assert (Ha : (a < Z.to_nat (2 ^ k))%nat).
+    { assert (Hn : nth_error (map (fun i : nat => Free (Z.of_nat i)) (seq 0 (Z.to_nat (2 ^ k)))) a <> None) by congruence.
+      apply nth_error_Some in Hn. rewrite map_length, seq_length in Hn. exact Hn. }
+    rewrite nth_error_map_seq in Hf by auto. inversion Hf; subst. discriminate.
 Qed.
 
 (* ---- what the invariant gives at the interface, for any thread count and any fresh schedule ---- *)
@@ -892,7 +940,7 @@ Theorem syncring_safe k n sched c :
   (forall i v g, In (i, RPop v (Some g)) (hist c) -> v = Some g).
 Proof.
   intros Hk HF HR. destruct (run_inv k sched (init k n) (init_inv k n Hk) HF) as (c' & E & HI).
-  rewrite HR in E. inversion E; subst c'. destruct HI as [HG _ _ HH].
+  rewrite HR in E. inversion E; subst c'. destruct HI as [HG _ _ HH _].
   pose proof (g_q _ _ HG). pose proof (g_full _ _ HG). pose proof (g_cap _ _ HG).
   repeat split; try lia.
   intros i v g Hin. rewrite Forall_forall in HH. apply (HH _ Hin).
@@ -918,7 +966,7 @@ Theorem syncring_linearizable k n sched c :
   (forall i v g, In (i, RPop v (Some g)) (hist c) -> v = Some g).
 Proof.
   intros Hk HF HR. destruct (run_inv k sched (init k n) (init_inv k n Hk) HF) as (c' & E & HI).
-  rewrite HR in E. inversion E; subst c'. destruct HI as [HG _ _ HH].
+  rewrite HR in E. inversion E; subst c'. destruct HI as [HG _ _ HH _].
   split.
   - rewrite <- (g_cap _ _ HG). apply (g_lin _ _ HG).
   - intros i v g Hin. rewrite Forall_forall in HH. apply (HH _ Hin).
@@ -945,7 +993,7 @@ Qed.
 
 Theorem race_free k c : Inv k c -> ~ race c.
 Proof.
-  intros [HG HU HT _] (i & j & pi & pj & a & wi & wj & Hij & Hi & Hj & Ai & Aj & _).
+  intros [HG HU HT _ _] (i & j & pi & pj & a & wi & wj & Hij & Hi & Hj & Ai & Aj & _).
   assert (Hti : tassert (sh c) pi) by (rewrite Forall_forall in HT; apply HT; eapply nth_error_In; eauto).
   assert (Htj : tassert (sh c) pj) by (rewrite Forall_forall in HT; apply HT; eapply nth_error_In; eauto).
   destruct (plain_access_owner k _ _ _ _ HG Hti Ai) as (fi & Hoi & Hai).
@@ -974,3 +1022,140 @@ Proof.
 Qed.
 Print Assumptions syncring_linearizable.
 Print Assumptions race_free.
+
+(* ------------------------------------------------------------------------------------------- *)
+(* "returns false only if the ring was full (empty) ... or another operation overlapped it"      *)
+(* solo form: with every other thread idle, the sequence check of Push passes iff the ring is    *)
+(* not full, that of Pop iff it is not empty (and the CAS that follows cannot fail: nobody moves) *)
+(* ------------------------------------------------------------------------------------------- *)
+Lemma quiescent_unowned k c : Inv k c -> Forall (fun p => p = Idle) (ths c) ->
+  forall i f, nth_error (ph (sh c)) i = Some f -> is_owned f = false.
+Proof.
+  intros HI Hidle i f Hf. destruct (is_owned f) eqn:E; auto.
+  destruct (inv_o _ _ HI i f Hf E) as (j & pj & Hj & Ho).
+  rewrite Forall_forall in Hidle. rewrite (Hidle pj (nth_error_In _ _ Hj)) in Ho. discriminate.
+Qed.
+
+Theorem solo_push_check k s : G k s -> (forall i f, nth_error (ph s) i = Some f -> is_owned f = false) ->
+  forall x, slot_at s (tl s) = Some x -> (snd x = u32 (tl s) <-> Z.of_nat (length (q s)) < cap s).
+Proof.
+  intros HG Hun x Hx. destruct (phase_exists k s (tl s) HG) as [f Hf].
+  pose proof (g_slots _ _ HG _ _ _ Hx Hf) as (Hi & Hsq & Hr).
+  pose proof (Hun _ _ Hf) as Hno.
+  destruct (cap_bounds k (g_k _ _ HG)) as [[H2 H31] _]. pose proof (g_cap _ _ HG) as Hc.
+  pose proof (g_q _ _ HG). pose proof (g_full _ _ HG). pose proof (g_hd _ _ HG).
+  assert (HM : M32 = 2 ^ 32) by reflexivity. assert (2 ^ 31 < 2 ^ 32) by (apply Z.pow_lt_mono_r; lia).
+  destruct f as [p|p|p|p]; cbn [is_owned ticket seq_of] in *; try discriminate.
+  - (* Free p: the ring is not full *)
+    assert (p = tl s) by (eapply (same_index_ticket k s); eauto; lia). subst p. rewrite Hsq. split; intros _; [lia|reflexivity].
+  - (* Published p: only possible when full *)
+    destruct Hr as [Hr Hv]. split.
+    + intros E. rewrite Hsq in E. apply u32_inj_near in E; [|lia].
+      assert (p = tl s) by (eapply (same_index_ticket k s); eauto; lia). lia.
+    + intros Hlt. exfalso. assert (p = tl s) by (eapply (same_index_ticket k s); eauto; lia). lia.
+Qed.
+
+Theorem solo_pop_check k s : G k s -> (forall i f, nth_error (ph s) i = Some f -> is_owned f = false) ->
+  forall x, slot_at s (hd s) = Some x -> (snd x = u32 (hd s + 1) <-> q s <> []).
+Proof.
+  intros HG Hun x Hx. destruct (phase_exists k s (hd s) HG) as [f Hf].
+  pose proof (g_slots _ _ HG _ _ _ Hx Hf) as (Hi & Hsq & Hr).
+  pose proof (Hun _ _ Hf) as Hno.
+  destruct (cap_bounds k (g_k _ _ HG)) as [[H2 H31] _]. pose proof (g_cap _ _ HG) as Hc.
+  pose proof (g_q _ _ HG). pose proof (g_full _ _ HG). pose proof (g_hd _ _ HG).
+  assert (HM : M32 = 2 ^ 32) by reflexivity. assert (2 ^ 31 < 2 ^ 32) by (apply Z.pow_lt_mono_r; lia).
+  assert (Hlen : q s <> [] <-> 0 < Z.of_nat (length (q s))) by (destruct (q s); cbn [length]; split; intros; try congruence; lia).
+  destruct f as [p|p|p|p]; cbn [is_owned ticket seq_of] in *; try discriminate.
+  - (* Free p: only possible when empty *)
+    split.
+    + intros E. rewrite Hsq in E. apply u32_inj_near in E; [|lia].
+      assert (p = hd s) by (eapply (same_index_ticket k s); eauto; lia). lia.
+    + intros Hne. apply Hlen in Hne. exfalso. assert (p = hd s) by (eapply (same_index_ticket k s); eauto; lia). lia.
+  - (* Published p = hd: not empty *)
+    destruct Hr as [Hr Hv]. assert (p = hd s) by (eapply (same_index_ticket k s); eauto; lia). subst p.
+    rewrite Hsq. split; intros _; [apply Hlen; lia|reflexivity].
+Qed.
+Print Assumptions solo_push_check.
+Print Assumptions solo_pop_check.
+
+(* ------------------------------------------------------------------------------------------- *)
+(* Progress: starting from a quiescent ring that is not full, if only pushers run, the first one   *)
+(* to reach its CAS succeeds; so any run in which some push completes contains a successful push.  *)
+(* ------------------------------------------------------------------------------------------- *)
+Definition only_push (sched : list (nat * op)) : Prop := Forall (fun e => exists v, snd e = OpPush v) sched.
+
+(* phase A: nobody has claimed a ticket yet; phase B: somebody has (and either still owns it or has returned true) *)
+Definition phaseA (c0 c : config) : Prop :=
+  sh c = sh c0 /\ hist c = hist c0 /\
+  Forall (fun p => p = Idle \/ (exists v, p = PuLoadTail v) \/ (exists v, p = PuLoadSeq v (u32 (tl (sh c0))) (tl (sh c0))) \/
+                   (exists v, p = PuCas v (u32 (tl (sh c0))) (u32 (tl (sh c0))) (tl (sh c0)))) (ths c).
+Definition phaseB (c : config) : Prop :=
+  (exists j v pos seq T0, nth_error (ths c) j = Some (PuWrite v pos seq T0) \/ nth_error (ths c) j = Some (PuPublish v pos seq T0)) \/
+  (exists j, In (j, RPush true) (hist c)).
+
+Lemma Forall_upd {A} (P : A -> Prop) l i x : Forall P l -> P x -> Forall P (upd l i x).
+Proof. intros H; revert i; induction H as [|a l Ha Hl IH]; intros [|i] Hx; cbn [upd]; constructor; auto. Qed.
+
+Lemma progress_step k c0 c e c' :
+  Inv k c0 -> Forall (fun p => p = Idle) (ths c0) -> Z.of_nat (length (q (sh c0))) < cap (sh c0) ->
+  (exists v, snd e = OpPush v) -> step c e = Some c' ->
+  (phaseA c0 c -> phaseA c0 c' \/ phaseB c') /\ (phaseB c -> phaseB c').
+Proof.
+  intros HI0 Hidle Hroom (v0 & Hv0) Hs. destruct e as [i o]. cbn [snd] in Hv0. subst o. unfold step in Hs.
+  destruct (nth_error (ths c) i) as [p|] eqn:Hi; [|inversion Hs; subst; tauto].
+  destruct (tstep (sh c) p (OpPush v0)) as [[[s' p'] r]|] eqn:Et; [|discriminate]. inversion Hs; subst c'; clear Hs.
+  split.
+  - (* from phase A *)
+    intros (Hsh & Hh & Hall). pose proof HI0 as [HG0 _ _ _ _].
+    assert (Hp : p = Idle \/ (exists v, p = PuLoadTail v) \/ (exists v, p = PuLoadSeq v (u32 (tl (sh c0))) (tl (sh c0))) \/
+                 (exists v, p = PuCas v (u32 (tl (sh c0))) (u32 (tl (sh c0))) (tl (sh c0))))
+      by (rewrite Forall_forall in Hall; apply Hall; eapply nth_error_In; eauto).
+    destruct Hp as [->|[(v & ->)|[(v & ->)|(v & ->)]]]; cbn [tstep] in Et.
+    + inversion Et; subst. left. repeat split; cbn [sh hist ths]; auto. apply Forall_upd; auto. right; left; eauto.
+    + inversion Et; subst. left. repeat split; cbn [sh hist ths]; auto. apply Forall_upd; auto. rewrite Hsh. right; right; left; eauto.
+    + (* the sequence check passes: the ring is not full and nobody owns anything *)
+      rewrite Hsh in Et. destruct (slot_exists k (sh c0) (u32 (tl (sh c0))) HG0) as [[xv xs] Hx]. rewrite Hx in Et.
+      assert (Hxs : xs = u32 (tl (sh c0))).
+      { apply (proj2 (solo_push_check k (sh c0) HG0 (quiescent_unowned k c0 HI0 Hidle) (xv, xs)
+                       ltac:(unfold slot_at; rewrite <- (sidx_u32 k _ _ HG0); exact Hx)) Hroom). }
+      subst xs. rewrite Z.eqb_refl in Et. inversion Et; subst. left. repeat split; cbn [sh hist ths]; auto.
+      apply Forall_upd; auto. right; right; right; eauto.
+    + (* the CAS succeeds: the tail has not moved *)
+      rewrite Hsh, Z.eqb_refl in Et. inversion Et; subst. right. left. exists i. do 4 eexists. left.
+      cbn [ths]. apply nth_error_upd_eq. apply nth_error_Some. congruence.
+  - (* phase B persists *)
+    intros [(j & v & pos & seq & T0 & Hj)|(j & Hj)].
+    + destruct (Nat.eq_dec j i) as [->|Hne].
+      * rewrite Hi in Hj. destruct Hj as [Hj|Hj]; inversion Hj; subst p; cbn [tstep] in Et.
+        -- destruct (nth_error (slots (sh c)) (sidx (sh c) pos)) as [[? ?]|]; [|discriminate]. inversion Et; subst.
+           left. exists i. do 4 eexists. right. cbn [ths]. apply nth_error_upd_eq. apply nth_error_Some. congruence.
+        -- destruct (nth_error (slots (sh c)) (sidx (sh c) pos)) as [[? ?]|]; [|discriminate]. inversion Et; subst.
+           right. exists i. cbn [hist]. apply in_app_iff. right. left. reflexivity.
+      * left. exists j, v, pos, seq, T0. cbn [ths]. rewrite nth_error_upd_ne by auto. exact Hj.
+    + right. exists j. cbn [hist]. destruct r; [apply in_app_iff; left; exact Hj|exact Hj].
+Qed.
+
+Theorem pushers_progress k c0 : Inv k c0 -> Forall (fun p => p = Idle) (ths c0) -> Z.of_nat (length (q (sh c0))) < cap (sh c0) ->
+  forall sched c, only_push sched -> run c0 sched = Some c ->
+  (* some push has returned ... *) hist c <> hist c0 ->
+  (* ... and everybody is done *) Forall (fun p => p = Idle) (ths c) ->
+  exists j, In (j, RPush true) (hist c).
+Proof.
+  intros HI0 Hidle Hroom sched c Honly Hrun Hdone Hquiet.
+  assert (G : forall sched c1 c2, only_push sched -> run c1 sched = Some c2 ->
+              (phaseA c0 c1 -> phaseA c0 c2 \/ phaseB c2) /\ (phaseB c1 -> phaseB c2)).
+  { induction sched0 as [|e t IH]; intros c1 c2 Ho Hr; cbn [run] in Hr.
+    - inversion Hr; subst. tauto.
+    - inversion Ho as [|? ? He Ht]; subst. destruct (step c1 e) as [cm|] eqn:Es; [|discriminate].
+      destruct (progress_step k c0 c1 e cm HI0 Hidle Hroom He Es) as [SA SB].
+      destruct (IH cm c2 Ht Hr) as [IA IB]. split.
+      + intros HA. destruct (SA HA) as [HA'|HB']; [apply IA; auto|right; apply IB; auto].
+      + intros HB. apply IB, SB, HB. }
+  destruct (G sched c0 c Honly Hrun) as [GA _].
+  assert (HA0 : phaseA c0 c0).
+  { repeat split; auto. eapply Forall_impl; [|exact Hidle]. cbn beta. intros p ->. left; reflexivity. }
+  destruct (GA HA0) as [(Hsh & Hh & _)|HB]; [congruence|].
+  destruct HB as [(j & v & pos & seq & T0 & Hj)|HB]; [|exact HB].
+  exfalso. rewrite Forall_forall in Hquiet. destruct Hj as [Hj|Hj]; apply nth_error_In in Hj; apply Hquiet in Hj; discriminate.
+Qed.
+Print Assumptions pushers_progress.
